@@ -319,3 +319,45 @@ def register(glob, which, names, split=None):
             f = condition(timeout={"quick": tq, "thorough": tt}, tiers=tiers, functions=ENGINE_FUNCS,
                           bounds={"quick": {"N": 2}, "thorough": {"N": 3}}, note=(fn.__doc__ or "").strip())(f)
             glob[cname] = f
+
+
+BIG = "a" * 262200
+
+
+def seq_misc(which, v: int, typ: int, c0: int, c1: int):
+    """Single-state outcomes not covered by seq_chain: Choice (match / no match / oversize output),
+    Fail, runtime path failure, ResultPath failure, missing Next."""
+    S = {"Type": "Succeed"}
+    data = {"x": 1}
+    expect = None
+    if v == 0:
+        first = {"Type": "Choice", "Choices": [{"Variable": "$.x", "NumericEquals": 1, "Next": "S"}]}
+        expect = ("SUCCEEDED", {"x": 1})
+    elif v == 1:
+        first = {"Type": "Choice", "Choices": [{"Variable": "$.x", "NumericEquals": 2, "Next": "S"}]}
+        expect = ("FAILED", "States.NoChoiceMatched")
+    elif v == 2:
+        first = {"Type": "Fail", "Error": "MyErr", "Cause": "c"}
+        expect = ("FAILED", "MyErr")
+    elif v == 3:
+        first = {"Type": "Pass", "InputPath": "$.zz", "Next": "S"}
+        expect = ("FAILED", "States.Runtime")
+    elif v == 4:
+        first = task("f", ResultPath="$.x.y", Next="S")
+        expect = ("FAILED", "States.ResultPathMatchFailure")
+    elif v == 5:
+        first = {"Type": "Pass"}
+        expect = ("FAILED", "States.Runtime")
+    elif v == 7:
+        first = {"Type": "Parallel", "Branches": [], "Next": "S"}
+        expect = ("SUCCEEDED", [])
+    else:
+        first = {"Type": "Choice", "Choices": [{"Variable": "$.x", "NumericEquals": 1, "Next": "S"}]}
+        data = {"x": 1, "big": BIG}
+        expect = ("FAILED", "States.DataLimitExceeded")
+    asl = {"StartAt": "A", "States": {"A": first, "S": S}}
+    sm_type = "EXPRESS" if typ == 1 else "STANDARD"
+    return s2.run_scenario(asl, data, [c0, c1], {"f": worker(False, "", "f")}, which, sm_type, expect)
+
+
+SCN["seq_misc"] = (["0 <= v <= 7 and 0 <= typ < 2"], 240, 600, ("quick", "thorough"))
